@@ -309,7 +309,7 @@ RULE = ("each request (plain QUERY, RD random, with or without an OPT advertisin
 CHECK = {
     "property": "C04",
     "props": "Props/C04.v",
-    "theorems": ["c04_response_within_limit", "c04_tc_shape", "c04_limit_value", "c04_udp_response_size", "c04_oracle_tc_shape",
+    "theorems": ["c04_response_within_limit", "c04_tc_shape", "c04_limit_value", "c04_udp_response_size", "c04_udp_identical_when_fits_partial", "c04_writer_limit_monotone", "c04_oracle_tc_shape",
                  "c04_oracle_sizes_and_identity"],
     "allowed_axioms": [],
     "suites": [{
@@ -335,18 +335,21 @@ CHECK = {
 }
 
 MANIFEST = {
-    "level_text": ("Coq theorems (no axioms) about the octet-level model of query answering (the C05 query model driving the C12 Writer "
-                   "model, prepared as handle_message prepares a clean QUERY): for every zone, question, buffer and size the finished "
-                   "response is no longer than the limit in effect (TCP 65535; UDP 512, or the negotiated limit with an OPT); the limit "
-                   "never changes while answering; TC is set only in the Truncation arm, only over UDP, after clear_rrs (no answer / "
-                   "authority records, only the reserved OPT/TSIG counted), and never over TCP. PARTIAL: the clauses 'UDP response "
-                   "identical to the TCP response whenever that fits' and 'otherwise only optional additional records are missing, "
-                   "never in-bailiwick glue' are NOT theorems (they need a limit-monotonicity theorem of the Writer): they are decided "
-                   "on every run by the extracted relation pair_check on the real server's two responses to ~2.4k requests tuned to "
-                   "within +-40 octets of 512 and of random negotiated sizes, and both responses are compared octet for octet with "
-                   "the model; the server-side value of the limit (512 / 65535 / the processed OPT's CLASS clamped to [512, server size]) IS proved, through the whole pre-scan of the server model, and composed with the Writer side for UDP."),
+    "level_text": ("Coq theorems (no axioms). Server model: the limit of every response handle_message yields is 65535 over TCP, 512 "
+                   "over UDP, or over UDP the CLASS of a processed OPT clamped to [512, server size] (through the whole pre-scan). "
+                   "Octet-level model of query answering (the C05 query model driving the C12 Writer model, prepared as handle_message "
+                   "prepares a clean QUERY), for every zone, question, buffer and size: the finished response is no longer than the "
+                   "limit in effect, and the two sides compose for UDP; the limit never changes while answering; TC is set only in the "
+                   "Truncation arm, only over UDP, after clear_rrs (no answer/authority records, only the reserved OPT/TSIG counted), "
+                   "never over TCP; and — clause (iii) for answers that end Ok — if the finished TCP message fits the UDP space the UDP "
+                   "response is octet-identical (Writer limit-monotonicity + a relational lifting over the query model). PARTIAL: "
+                   "clause (iii) for answers ending in SERVFAIL after partial writes (false there: known finding C04-1) and clause (iv) "
+                   "('a TC-clear UDP response differs only by omitted optional additional records, never in-bailiwick glue') are not "
+                   "theorems; they, and all clauses on the real octets, are decided on every run by the extracted relation pair_check "
+                   "on the real server's two responses to ~2.4k requests tuned to within +-40 octets of 512 and of random negotiated "
+                   "sizes; both responses are also compared octet for octet with the model."),
     "level_note": ("Trusted: Coq kernel, extraction, fidelity of the hand-written models (octet-exact differential test on every run), "
                    "C12's Writer invariants (reused), the decoder used by the oracle. Known finding C04-1 (see known_findings.jsonl)."),
-    "technique": "machine-checked proof in Coq (invariant lifted through the query model over the Writer model) + octet-exact correspondence on both transports + extracted pair-relation oracle",
+    "technique": "machine-checked proof in Coq (invariants and a limit-monotonicity simulation lifted through the query model over the Writer model; limit value through the server model) + octet-exact correspondence on both transports + extracted pair-relation oracle",
     "design_ref": "DESIGN.md section 4 (C04)",
 }
